@@ -20,8 +20,19 @@ func init() { props["C13"] = runC13 }
 
 func names(ids []int) map[string]string {
 	m := map[string]string{}
+	// the metadata a server announces (weights, also zero and negative, state, group) says nothing to this strategy:
+	// every announced server is on the ring
 	for _, i := range ids {
-		m[fmt.Sprintf("s%02d", i)] = ""
+		meta := ""
+		switch i % 6 {
+		case 1:
+			meta = "weight=0"
+		case 2:
+			meta = "weight=3&group=g"
+		case 4:
+			meta = "weight=-1"
+		}
+		m[fmt.Sprintf("s%02d", i)] = meta
 	}
 	return m
 }
